@@ -3,12 +3,12 @@ CONSTANTS
   CMonths = {2,12}
   CDays = {9,28}
   CHours = {9,23}
-  CQuanta = {"YMDH","MDH","DH"}
+  CQuanta = {"YMDH","DH"}
   NSV = {TRUE}
   Variant = "fixed"
   Order = "code"
   MaxT = 2
-  MaxS = 2
+  MaxS = 1
   MaxClr = 2
   Depth = 0
   Gen = FALSE
